@@ -67,6 +67,57 @@ theorem recursive_selects_subtree (t name : Str) (ht : t.getLast? ≠ some '/')
       · exact absurd h.symm he
       · simp [h]
 
+/-- selection distributes over the union of target collections: `extract(T ∪ T')` selects
+    exactly what `extract(T)` or `extract(T')` selects, nothing more -/
+theorem selected_union (recursive : Bool) (ts ts' : List Str) (name : Str) :
+    selected recursive (ts ++ ts') name = (selected recursive ts name || selected recursive ts' name) := by
+  unfold selected
+  cases recursive <;> simp [List.map_append, List.any_append, Bool.or_assoc, Bool.or_left_comm]
+
+/-- no target, nothing selected -/
+theorem selected_nil (recursive : Bool) (name : Str) : selected recursive [] name = false := by
+  unfold selected; cases recursive <;> simp
+
+/-- non-recursive selection is exact-name selection: a member is delivered iff some target,
+    its trailing slash removed, equals the member's name -/
+theorem nonrecursive_exact (ts : List Str) (name : Str) :
+    selected false ts name = true ↔ ∃ t ∈ ts, removeTrailingSlash t = name := by
+  unfold selected
+  simp only [Bool.false_eq_true, if_false, List.contains_iff_mem, List.mem_map]
+
+/-- recursive selection: a member is delivered iff some normalised target equals it or is a
+    string prefix of it (the quantifier's prefix-freedom turns "string prefix" into
+    "beneath the directory", `recursive_selects_subtree`) -/
+theorem recursive_iff (ts : List Str) (name : Str) :
+    selected true ts name = true ↔
+      ∃ t ∈ ts, removeTrailingSlash t = name ∨ (removeTrailingSlash t).isPrefixOf name = true := by
+  unfold selected
+  simp only [if_true, Bool.or_eq_true, List.contains_iff_mem, List.mem_map, List.any_eq_true]
+  constructor
+  · rintro (⟨t, ht, e⟩ | ⟨u, ⟨t, ht, e⟩, hp⟩)
+    · exact ⟨t, ht, Or.inl e⟩
+    · subst e; exact ⟨t, ht, Or.inr hp⟩
+  · rintro ⟨t, ht, e | hp⟩
+    · exact Or.inl ⟨t, ht, e⟩
+    · exact Or.inr ⟨_, ⟨t, ht, rfl⟩, hp⟩
+
+/-- targets "given as list or set": only which names are in the collection matters — order
+    and repetition are immaterial -/
+theorem selected_set_like (recursive : Bool) (ts ts' : List Str) (name : Str)
+    (h : ∀ t, t ∈ ts ↔ t ∈ ts') :
+    selected recursive ts name = selected recursive ts' name := by
+  cases recursive with
+  | false =>
+    rw [Bool.eq_iff_iff, nonrecursive_exact, nonrecursive_exact]
+    constructor <;> rintro ⟨t, ht, e⟩
+    · exact ⟨t, (h t).mp ht, e⟩
+    · exact ⟨t, (h t).mpr ht, e⟩
+  | true =>
+    rw [Bool.eq_iff_iff, recursive_iff, recursive_iff]
+    constructor <;> rintro ⟨t, ht, e⟩
+    · exact ⟨t, (h t).mp ht, e⟩
+    · exact ⟨t, (h t).mpr ht, e⟩
+
 example : selected true ["dir/".toList, "nope".toList] "dir/sub/file".toList = true ∧
     selected false ["dir/".toList] "dir/sub/file".toList = false ∧
     selected false ["dir/".toList] "dir".toList = true := by decide
